@@ -12,6 +12,7 @@ from mosromgr import exc as X
 from scenarios import merge_cases, ro_xml, msg, describe, ABSENT
 
 MERGE_PROPS = ('C01', 'C02', 'C03', 'C05', 'C06', 'C12', 'C13')
+MERGE_EXTRA = ('C04',)
 
 
 def ser(e):
@@ -220,6 +221,8 @@ def check_pair(rox, mx, kind, a, fn):
     ids_ro = {id(e) for e in ro.xml.iter()}
     if any(id(e) in ids_ro for e in m.xml.iter()):
         viol.append(('C13', 'running order and message share elements after the merge'))
+    if kind == 'MetaDataReplace' and not raised:
+        viol += check_metadata(before, after, mx)
     E = expect(kind, a, S, I)
     if E['status'] == 'other':
         return viol
@@ -237,6 +240,10 @@ def check_pair(rox, mx, kind, a, fn):
         else:
             if seq_after != E['seq']:
                 viol.append((P, 'sequence after merge %s, protocol requires %s' % (seq_after, E['seq'])))
+                missing = [x for x in (E['seq'] or []) if x not in (seq_after or [])]
+                extra = [x for x in (seq_after or []) if x not in (E['seq'] or [])]
+                if missing or extra:
+                    viol.append(('C06', 'a named element was silently not acted on: expected %s, got %s' % (E['seq'], seq_after)))
             if wcount != E['warn']:
                 viol.append(('C06', 'warnings %s, expected %s' % (wcount, E['warn'])))
     elif E['status'] in ('inert', 'same'):
@@ -272,6 +279,48 @@ def check_pair(rox, mx, kind, a, fn):
             if bu != au:
                 viol.append(('C03', 'unnamed children of roCreate changed or were reordered'))
     return viol
+
+
+def _canon(e, top=True):
+    return (e.tag, tuple(sorted(e.attrib.items())), e.text, None if top else e.tail, tuple(_canon(c, False) for c in e))
+
+
+def check_metadata(before, after, mx):
+    """roMetadataReplace: a carried element replaces, in place, the first roCreate child with the same tag (for
+    mosExternalMetadata: and the same, present, mosSchema); otherwise it is added; nothing else changes"""
+    mroot = ET.fromstring(mx)
+    mb = mroot.find('roMetadataReplace')
+    exp = [('old', k['el'], _canon(k['el'])) for k in before['kids']]
+
+    def schema(e):
+        s = e.find('mosSchema')
+        return s.text if s is not None else None
+    for c in mb:
+        idx = None
+        for i, (kind_, el, cn) in enumerate(exp):
+            if cn[0] != c.tag:
+                continue
+            if c.tag == 'mosExternalMetadata':
+                els = el if kind_ == 'old' else el
+                if schema(c) is None or schema(els) is None or schema(c) != schema(els):
+                    continue
+            idx = i
+            break
+        if idx is None:
+            exp.append(('new', c, _canon(c)))
+        else:
+            exp[idx] = ('new', c, _canon(c))
+    got = [_canon(k['el']) for k in after['kids']]
+    out = []
+    if got != [cn for _, _, cn in exp]:
+        # attribute to C03 when something not carried changed, else C04
+        old_kept = [cn for kind_, _, cn in exp if kind_ == 'old']
+        got_old = [cn for cn in got if cn in old_kept]
+        if got_old != old_kept:
+            out.append(('C03', 'roMetadataReplace altered or removed metadata / stories it does not carry'))
+        else:
+            out.append(('C04', 'roMetadataReplace: a carried metadata element is not present with the sent content'))
+    return out
 
 
 def _mk_failure(prop, case, what):
@@ -345,3 +394,40 @@ def replay_C12(prop, f):
         return r.startswith('exc:') and r != 'exc:UnknownMosFileType'
     return replay_generic(prop, f)
 from oracles3 import *   # noqa: accessor oracles
+
+
+def search_C13(tier, rng):
+    r = search_merges('C13', tier, rng)
+    n, fl = search_C13_history()
+    r['evaluations'] += n
+    r['failures'] = fl + r['failures']
+    r['summary']['short'] += '; %d message re-use histories, %d failing' % (n, len(fl))
+    r['rule'] += '; plus %d histories: merge, later edits of the carried content, re-use of the same message object in a second running order' % n
+    return r
+
+
+def replay_C13(prop, f):
+    if f.get('history'):
+        return bool(check_c13_history(f['kind'], f['args'], [(k, a) for k, a in f['later']], f['ro_spec']))
+    return replay_generic(prop, f)
+
+
+_search_C04_payload = search_C04
+
+
+def search_C04(tier, rng):
+    r = _search_C04_payload(tier, rng)
+    r2 = search_merges('C04', tier, rng)
+    r['evaluations'] += r2['evaluations']
+    r['failures'] += r2['failures']
+    r['summary']['short'] += '; %s' % r2['summary']['short']
+    return r
+
+
+_replay_C04_payload = replay_C04
+
+
+def replay_C04(prop, f):
+    if 'expect' in f:
+        return _replay_C04_payload(prop, f)
+    return replay_generic(prop, f)
